@@ -33,6 +33,10 @@ func init() {
 			"length of the NEXT_HOP payload (declared 4, the value is whatever address the dialer bound: reviewed exception, see DESIGN.md section 6).",
 		Run: runC16,
 		Mutants: []Mutant{
+			{Name: "hold-time-clamped-on-the-wire", File: "internal/bgp/native/messages.go",
+				Old: "\tmsg := struct {\n\t\t// Header\n", New: "\tif holdTimeSeconds < 3 {\n\t\tholdTimeSeconds = 3\n\t}\n\tmsg := struct {\n\t\t// Header\n", Expect: "OPEN-FIELDS"},
+			{Name: "unknown-capability-skipped-by-raw-reads", File: "internal/bgp/native/messages.go",
+				Old: "\t\t\tif _, err := io.Copy(io.Discard, &lr); err != nil {\n\t\t\t\treturn err\n\t\t\t}", New: "\t\t\tvar skip [255]byte\n\t\t\tfor lr.N > 0 {\n\t\t\t\tif _, err := lr.Read(skip[:]); err != nil && err != io.EOF {\n\t\t\t\t\treturn err\n\t\t\t\t}\n\t\t\t}", Expect: "OPEN-FIELDS"},
 			{Name: "capability-flag-overwritten", File: "internal/bgp/native/messages.go",
 				Old: "\t\t\tcase af.AFI == 1 && af.SAFI == 1:\n\t\t\t\tret.mp4 = true\n",
 				New: "\t\t\tcase af.AFI == 1:\n\t\t\t\tret.mp4 = af.SAFI == 1\n", Expect: "CAPS-UNION"},
@@ -74,6 +78,7 @@ func init() {
 }
 
 func runC16(p *chk.Prog, r *chk.Report) {
+	c16OpenFields(p, r)
 	c16Layout(p, r)
 	c16Open(p, r)
 	c16Attrs(p, r)
@@ -313,6 +318,29 @@ func c16Negotiated(p *chk.Prog, r *chk.Report) {
 		for _, c := range cps {
 			src := c.Node.(*ast.CallExpr).Args[1]
 			ok = ok && so.MatchWith("R.To4()", so.Resolve(src), chk.H("R", rid)) != nil
+		}
+		if !ok && len(cps) == 0 {
+			// the identifier given in the message literal as the array conversion of the 4-byte form: RouterID:
+			// [4]byte(routerID.To4()) (Go 1.20 slice-to-array conversion: panics on a short slice, never pads)
+			n := 0
+			ast.Inspect(so.Body, func(nd ast.Node) bool {
+				kv, isKV := nd.(*ast.KeyValueExpr)
+				if !isKV {
+					return true
+				}
+				if k, isId := kv.Key.(*ast.Ident); !isId || k.Name != "RouterID" {
+					return true
+				}
+				n++
+				if b := so.MatchNew("[4]byte(SRC)", ast.Unparen(kv.Value)); b != nil && so.MatchWith("R.To4()", so.Resolve(b["SRC"]), chk.H("R", rid)) != nil {
+					ok = true
+				}
+				return true
+			})
+			ok = ok && n == 1 && len(g.Find(func(nd ast.Node) bool {
+				as, isAs := nd.(*ast.AssignStmt)
+				return isAs && len(as.Lhs) == 1 && so.MatchNew("M.RouterID", as.Lhs[0]) != nil
+			})) == 0
 		}
 		x.Check("sendOpen:router-id-is-4-byte-form", so.Pos(), ok, "", "the BGP identifier of the OPEN is not copied from routerID.To4(): a router id held in 16-byte form yields the identifier 0.0.0.0")
 	}
@@ -2189,4 +2217,69 @@ func c16ByteHeaderLen(f *chk.Fn, g *chk.Graph, e ast.Expr) (int, bool) {
 		}
 	}
 	return int(at.Len()), true
+}
+
+// c16OpenFields: what sendOpen puts on the wire is what it was asked to send, and the OPEN decoders cannot spin.
+func c16OpenFields(p *chk.Prog, r *chk.Report) {
+	x := r.Rule("OPEN-FIELDS", "B value flow + D ownership", "in sendOpen the HoldTime of the message is the checked conversion of the holdTime parameter's seconds and nothing else (the variable is assigned once); no function of package internal/bgp/native calls a reader's Read method directly (a raw Read may return short, and returns (0, io.EOF) for ever on a LimitedReader whose source ended: the decoders use the exact reads binary.Read / io.ReadFull / io.Copy, which stop at the first error)", 1)
+	so := need(x, p, natPkg, "", "sendOpen")
+	if so != nil {
+		n := 0
+		ast.Inspect(so.Body, func(nd ast.Node) bool {
+			kv, ok := nd.(*ast.KeyValueExpr)
+			if !ok {
+				return true
+			}
+			if k, isId := kv.Key.(*ast.Ident); !isId || k.Name != "HoldTime" {
+				return true
+			}
+			n++
+			okV := false
+			if id, isId := ast.Unparen(kv.Value).(*ast.Ident); isId {
+				defs := assignsTo(so, so.ObjOf(id))
+				if len(defs) == 1 {
+					if as, isAs := defs[0].(*ast.AssignStmt); isAs && len(as.Rhs) == 1 {
+						if b := so.MatchNew("safeconvert.IntToUInt16(X)", ast.Unparen(as.Rhs[0])); b != nil && so.Mentions(b["X"], so.ParamNamed("holdTime")) {
+							okV = true
+						}
+					}
+				}
+			} else if b := so.MatchNew("uint16(X)", ast.Unparen(kv.Value)); b != nil && so.Mentions(b["X"], so.ParamNamed("holdTime")) {
+				okV = true // an unchecked narrowing is NARROW-1's business
+			}
+			x.Check("sendOpen:hold-time-is-the-requested-one", kv.Pos(), okV, "", "the hold time written into the OPEN is not just the requested one converted to seconds (it is adjusted afterwards): a requested hold time of 0 - keepalives disabled - goes out as another value, while the session itself keeps using the requested one")
+			return true
+		})
+		x.Check("sendOpen:hold-time-field", so.Pos(), n == 1, "", "no HoldTime field in the OPEN literal")
+	}
+	nFn := 0
+	for _, f := range p.FuncsIn(natPkg) {
+		if f.Body == nil {
+			continue
+		}
+		nFn++
+		var bad *ast.CallExpr
+		ast.Inspect(f.Body, func(nd ast.Node) bool {
+			c, ok := nd.(*ast.CallExpr)
+			if !ok {
+				return true
+			}
+			se, isSel := ast.Unparen(c.Fun).(*ast.SelectorExpr)
+			if !isSel || se.Sel.Name != "Read" || len(c.Args) != 1 {
+				return true
+			}
+			if sel := f.Info().Selections[se]; sel != nil && sel.Kind() == types.MethodVal {
+				if sl, isSl := f.Info().TypeOf(c.Args[0]).Underlying().(*types.Slice); isSl {
+					if bt, isB := sl.Elem().Underlying().(*types.Basic); isB && bt.Kind() == types.Uint8 {
+						bad = c
+					}
+				}
+			}
+			return true
+		})
+		if bad != nil {
+			x.Check("raw-read@"+f.Name(), bad.Pos(), false, "", "a reader's Read method is called directly: it may return fewer bytes than asked, and on a LimitedReader whose source ended it returns (0, io.EOF) without consuming the limit - a loop around it that tolerates io.EOF never ends (readOpen hangs with the session lock held)")
+		}
+	}
+	x.Check("raw-read:functions-scanned", 0, nFn >= 20, "", "fewer functions of internal/bgp/native scanned than expected")
 }
